@@ -33,7 +33,45 @@ def rand_sym(rs, n, scale=1.0):
     return scale * (a + a.T) / 2.0
 
 
-def gen_hamiltonian(rs, norb, nchol, strength=0.5, spin_dep=False, h1_scale=1.0, antisym=0.0):
+def cond(m):
+    """Condition number; 1 for an empty block (a spin channel without electrons)."""
+    m = np.asarray(m)
+    return 1.0 if m.size == 0 else float(np.linalg.cond(m))
+
+
+def amax(a):
+    """max |a|; 0 for an empty block."""
+    a = np.asarray(a)
+    return 0.0 if a.size == 0 else float(np.max(np.abs(a)))
+
+
+def corner_override(m, k, salt, empty_ok=True, single_ok=True, rhf_unrestricted_ok=True):
+    """Corners of the quantifier, drawn from a stream of their own so that the rest of the menu stays as it was:
+    a spin channel without electrons (unrestricted walkers, plain entry points: jax's derivative rule of det
+    fails on 0 x 0 matrices, so AD entry points are left out), a completely filled spin channel, one or two walkers."""
+    import random as _random
+
+    r = _random.Random(salt * 1000003 + k)
+    u = r.random()
+    if empty_ok and m.get("wt") == "unrestricted" and m.get("trial") in ("uhf", "noci", "ghf", None) and u < 0.14:
+        m["nelec"] = r.choice([[2, 0], [1, 0], [3, 0]])
+        m["corner"] = "empty_spin_channel"
+    elif m.get("wt") == "unrestricted" and m.get("trial") in ("uhf", "noci", "ghf", None) and 0.14 <= u < 0.22 and m.get("norb", 4) <= 4:
+        m["nelec"] = [m.get("norb", 4), r.choice([1, 2])]
+        m["corner"] = "filled_spin_channel"
+    elif single_ok and 0.22 <= u < 0.30:
+        m["n_walkers"] = r.choice([1, 2])
+        m["n_batch"] = 1
+        m["corner"] = "one_or_two_walkers"
+    elif rhf_unrestricted_ok and m.get("wt") == "unrestricted" and m.get("trial") in ("uhf", "noci") and 0.30 <= u < 0.42:
+        # an RHF trial measured through its unrestricted-walker routines (trial "rhf" with walker_type "uhf" in the set-up)
+        m["trial"] = "rhf"
+        m["nelec"] = r.choice([[1, 1], [2, 2], [2, 2]])
+        m["corner"] = "rhf_trial_unrestricted_walkers"
+    return m
+
+
+def gen_hamiltonian(rs, norb, nchol, strength=0.5, spin_dep=False, h1_scale=1.0, antisym=0.0, h0_offset=0.0, core_level=0.0):
     """Random ab-initio-like Hamiltonian: symmetric h1 (per spin), symmetric Cholesky
     matrices (flattened as the library stores them)."""
     _, jnp = _jax()
@@ -47,8 +85,13 @@ def gen_hamiltonian(rs, norb, nchol, strength=0.5, spin_dep=False, h1_scale=1.0,
         k = rs.normal(size=(norb, norb))
         h1a = h1a + antisym * (k - k.T)
         h1b = h1b + antisym * (k - k.T)
+    if core_level:
+        # a deep (core-like) level on the first orbital; total energies of real molecules come with a large
+        # constant (nuclear repulsion, frozen core) as well: both applied after all draws
+        h1a = h1a + np.diag([core_level] + [0.0] * (norb - 1))
+        h1b = h1b + np.diag([core_level] + [0.0] * (norb - 1))
     return {
-        "h0": jnp.array(h0),
+        "h0": jnp.array(h0 + h0_offset),
         "h1": jnp.array(np.array([h1a, h1b])),
         "chol": jnp.array(chol.reshape(nchol, norb * norb)),
         "ene0": 0.0,
@@ -331,7 +374,8 @@ def build_system(spec, harness=True):
     norb, nelec = spec["norb"], tuple(spec["nelec"])
     s.spec = spec
     s.ham = hamiltonian.hamiltonian(norb)
-    ham_data = gen_hamiltonian(rs, norb, spec["nchol"], spec.get("strength", 0.5), spec.get("spin_dep", False), antisym=spec.get("h1_antisym", 0.0))
+    ham_data = gen_hamiltonian(rs, norb, spec["nchol"], spec.get("strength", 0.5), spec.get("spin_dep", False), antisym=spec.get("h1_antisym", 0.0),
+                               h0_offset=spec.get("h0_offset", 0.0), core_level=spec.get("core_level", 0.0))
     s.trial, s.wave_data = make_trial(spec["trial"], norb, nelec, ham_data, rs, spec.get("mix", 0.0), spec.get("n_batch", 1))
     base = "propagator_restricted" if spec["wt"] == "restricted" else "propagator_unrestricted"
     kw = dict(dt=spec["dt"], n_walkers=spec["n_walkers"], n_exp_terms=spec.get("n_exp_terms", 6), n_batch=spec.get("n_batch", 1))
